@@ -28,7 +28,7 @@ KIND_OF_VAR = {'angular position': 'AngularPosition', 'angular speed': 'AngularS
                'load torque': 'Torque', 'tangential force': 'Force', 'bending stress': 'Stress',
                'contact stress': 'Stress', 'electric current': 'Current'}
 BASE6 = ['angular position', 'angular speed', 'angular acceleration', 'torque', 'driving torque', 'load torque']
-TOL = 1e-12
+TOL = 1e-12      # COMPARISON_TOLERANCE; refreshed from the extracted tables by `code_factor`
 
 
 def Q(kind, vu):
@@ -347,6 +347,8 @@ def code_factor(kind, unit):
         import os
         from common import BUILD
         t = json.load(open(os.path.join(BUILD, 'tables.json')))
+        global TOL
+        TOL = t['tol'][0] / t['tol'][1]
         for kk, d in t['kinds'].items():
             for un, f in zip(d['units'], d['factors']):
                 _CF[(kk, un)] = F(f[0], f[1])
